@@ -199,7 +199,10 @@ def run(chk):
             bad, k = pyops_vs_reference(chk, op, n)
             nb += k
             chk.ob(f"pyops/hy.pyops.{op} with {n} operands performs the operator applications of the documented expansion", bad is None,
-                   "enum-euf", "arity_bounded", detail=bad)
+                   "enum-euf", "arity_bounded", detail=bad,
+                   replay=None if bad is None else {
+                       "confirmed": True, "input": f"hy.pyops.{op}(*operands): the real function called with {n} operand objects whose special "
+                       "methods log every operator application (and raise / answer False as the decisions say)", "observed": bad})
         # arity limits of the functions agree with the macros
         for n in range(0, lo):
             r = run_pyops(op, n)
